@@ -26,7 +26,7 @@ MCInit ==
           /\ \A b \in 1..M : gtf[b] = (b >= MainFrom)
           /\ A = MkA(gtf)
     /\ S = EmptyState /\ w = Idle
-    /\ last = [b |-> None, res |-> "none", ok |-> TRUE]
+    /\ last = [b |-> None, res |-> "none", ok |-> TRUE, same |-> TRUE, det |-> FALSE]
     /\ h = <<>>
 
 Delivered == {h[i] : i \in DOMAIN h}
@@ -43,8 +43,9 @@ MCUnwind == UnwindStep /\ UNCHANGED h
 MCWind   == WindStep /\ UNCHANGED h
 MCUnNew  == UnNewStep /\ UNCHANGED h
 MCRewind == RewindStep /\ UNCHANGED h
-MCNext == (\E b \in Blocks : Deliver(b)) \/ MCUnwind \/ MCWind \/ MCUnNew \/ MCRewind
-MCSpec == MCInit /\ [][MCNext]_mcvars /\ WF_mcvars(MCUnwind \/ MCWind \/ MCUnNew \/ MCRewind)
+MCCrash  == CrashStep /\ UNCHANGED h
+MCNext == (\E b \in Blocks : Deliver(b)) \/ MCUnwind \/ MCWind \/ MCUnNew \/ MCRewind \/ MCCrash
+MCSpec == MCInit /\ [][MCNext]_mcvars /\ WF_mcvars(MCUnwind \/ MCWind \/ MCUnNew \/ MCRewind \/ MCCrash)
 
 Done == w.pc = "idle" /\ Len(h) = MaxLen
 Scenario == [blocks |-> [b \in Blocks |-> [id |-> b, parent |-> A[b].parent, gt |-> A[b].gt,
